@@ -11,6 +11,7 @@ from vlib.common import Sub, Violation, call, close, O
 pyrepseq = boot.import_pyrepseq()
 
 PROPERTY = "C06"
+QUICK_SCALE = 4
 RULE = ("Hypothesis draws (N, K, p) with p a rational point of the simplex (positive integer weights / their sum) and, for two "
         "samples, (N1, N2, K, p, q); for each draw EVERY count vector (composition of N into K parts) is enumerated and the "
         "expectation sum_n multinomial(n; p) f(n) is evaluated exactly: (i) the real pc_n / varpc_n are called on dtype=object "
@@ -77,6 +78,15 @@ def check_one(case, rec):
             if not close(fv, v, 1e-12):
                 raise Violation("pc_n-int-vs-exact", f"pc_n({counts}) = {fv!r}, exact {v}")
             if N >= 4:
+                # the SAME float64 count array goes through varpc_n, stdpc_n and pc_n one after the other
+                f64 = np.array(counts, dtype=np.float64)
+                v64 = float(call("varpc_n", pyrepseq.varpc_n, f64))
+                s64 = float(call("stdpc_n", pyrepseq.stdpc_n, f64))
+                p64 = float(call("pc_n", pyrepseq.pc_n, f64))
+                if f64.tolist() != [float(c) for c in counts]:
+                    raise Violation("counts-mutated", f"float64 count array {counts} changed to {f64.tolist()}")
+                if not close(p64, v, 1e-12) or (v64 >= 0 and not close(s64, math.sqrt(v64), 1e-12)):
+                    raise Violation("reused-count-array", f"counts={counts}: pc_n={p64!r} (exact {v}), varpc_n={v64!r}, stdpc_n={s64!r} on one array object")
                 fvar = float(call("varpc_n", pyrepseq.varpc_n, ia))
                 e_var_float += pr * Fraction(fvar)
                 sd = call("stdpc_n", pyrepseq.stdpc_n, ia)
